@@ -11,7 +11,7 @@ from typing import Optional
 from icalendar import Event, Todo, Journal
 from icalendar.cal import IncompleteComponent, InvalidCalendar
 from icalendar.prop import vDDDTypes, vDuration
-from vcheck.hcommon import mkdt, pinned, stub_utc
+from vcheck.hcommon import mkdt, pin, pinned, stub_utc
 
 DAY = 86400
 # value kinds: 0 absent, 1 DATE, 2 floating DATE-TIME, 3 UTC DATE-TIME
@@ -54,6 +54,23 @@ def _check_state(c, comp, utc):
     start = c.DTSTART
     end = c.DTEND if comp == 0 else c.DUE
     dur = c.DURATION
+    # states the RFC forbids MUST be reported: a time-of-day DURATION on a DATE start, and a
+    # DATE / DATE-TIME mismatch between start and end
+    bad_dur = start is not None and not isinstance(start, datetime) and dur is not None and dur.seconds != 0
+    mismatch = start is not None and end is not None and isinstance(start, datetime) != isinstance(end, datetime)
+    if bad_dur or mismatch:
+        for attr in (0, 1, 2):
+            try:
+                if attr == 0:
+                    c.start
+                elif attr == 1:
+                    c.end
+                else:
+                    c.duration
+                return False
+            except InvalidCalendar:
+                pass
+        return True
     # forbidden / incomplete states must be reported by the documented errors only
     try:
         s = c.start
@@ -243,3 +260,35 @@ def h_journal(k: int, d: int, s: int) -> bool:
     v = _val(k, d, s, utc)
     j.start = v
     return j.start == v and j.end == v and j.duration == timedelta(0) and j.DTSTART == v
+
+
+SEC_POOL = [0, 1, 60, 1440, 3600, 7200, 43200, 86399]
+# 1440 s = 24 min, 7200 s = 2 h, 43200 s = 12 h: multiples of "minutes per day" taken for seconds
+
+
+def _cc(x, n):
+    for c in range(n):
+        if x == c:
+            return c
+    return n - 1
+
+
+def h_step_pool(comp: int, op: int, sk: int, ek: int, hasdur: bool, dd: int, dsi: int, ak: int) -> bool:
+    """
+    The same inductive step with every value CONCRETE after branching (seconds from a pool of
+    boundary values incl. 24 min, 2 h, 12 h; days 0..1): arithmetic that the solver cannot follow
+    (float division, modulo on total_seconds()) is then simply executed.
+
+    pre: 0 <= comp <= 1 and pinned("comp", comp)
+    pre: 0 <= op < len(OPS) and pinned("op", op)
+    pre: 0 <= sk <= 3 and 0 <= ek <= 3 and 1 <= ak <= 3
+    pre: 0 <= dd <= 1 and 0 <= dsi < len(SEC_POOL)
+    pre: not (ek != 0 and hasdur)
+    pre: not (sk in (2, 3) and ek in (2, 3) and sk != ek)
+    pre: not (sk in (2, 3) and ak in (2, 3) and sk != ak) and not (ek in (2, 3) and ak in (2, 3) and ek != ak)
+    post: _
+    """
+    comp = pin("comp", comp); op = pin("op", op)
+    sk = _cc(sk, 4); ek = _cc(ek, 4); ak = max(1, _cc(ak, 4)); dd = _cc(dd, 2)
+    ds = SEC_POOL[_cc(dsi, len(SEC_POOL))]
+    return h_step(comp, op, sk, 1, 36000, ek, 2, 36000, bool(hasdur), dd, ds, ak, 1, 36000, dd, ds)
